@@ -23,7 +23,8 @@ import (
 // ("n1/ks1/S2/g3" = node, keyspace, statement, generation), so every EXECUTE and every
 // prepared BATCH entry can be checked against the statement the caller named (the first
 // bound text value is the operation's token). Faults: PREPARE answered with an error / never /
-// connection closed while it is outstanding; node restart (all ids forgotten, the next
+// connection closed or reset while it is outstanding (also while other callers, on other
+// connections of the node, wait on it); node restart (all ids forgotten, the next
 // PREPARE returns a new id) -> UNPREPARED on EXECUTE and BATCH; the caller's context is
 // cancelled; parks on the prepareStatement and exec yield points.
 //
@@ -81,7 +82,7 @@ func init() {
 		Run:        runPrep,
 		Real:       []string{"gocql Session/queryExecutor/pool/Conn.prepareStatement/executeQuery/executeBatch, preparedLRU + internal/lru, framer, marshalling of bound values (real code)", "Go runtime scheduler, channels, timers (fake clock)"},
 		Stub:       []string{"Cassandra nodes with their own prepared-statement tables (independent state machine + cqlspec codec)", "TCP (simnet)", "clock (testing/synctest)", "host selection: a trivial policy that sends each operation to the host the workload chose (random host ids make the stock policies' order irreproducible without a control connection)"},
-		Rule:       "one run = one seeded schedule of 2-6 callers x 2-4 operations (query / Bind query / batch of 1-3 entries / multi-statement batch / wrong-arity query or batch) over 1-6 statements (multi-batch = every batchable statement in one batch), 1-2 nodes x 1-2 connections, protocol 3/4/5, session keyspace none/ks1/ks2, cache size 1000/1/2/3, skip-metadata on/off, with tape-chosen reply order and lateness, PREPARE failures (error, silence, connection loss), node restarts, statements altered or evicted on a node (other bind/result types, other id), caller cancellations and yield-point parks; distinct = distinct canonical-log fingerprint; non-trivial = at least one PREPARE was shared by two callers, failed, or was repeated after UNPREPARED/eviction and at least one operation completed",
+		Rule:       "one run = one seeded schedule of 2-6 callers x 2-4 operations (query / Bind query / batch of 1-3 entries / multi-statement batch / wrong-arity query or batch) over 1-6 statements (multi-batch = every batchable statement in one batch), 1-2 nodes x 1-2 connections, protocol 3/4/5, session keyspace none/ks1/ks2, cache size 1000/1/2/3, skip-metadata on/off, with tape-chosen reply order and lateness, PREPARE failures (error, silence, loss of the connection that carries a shared PREPARE by FIN or RST), optionally all nodes behind one remote address, node restarts, statements altered or evicted on a node (other bind/result types, other id), caller cancellations and yield-point parks; distinct = distinct canonical-log fingerprint; non-trivial = at least one PREPARE was shared by two callers, failed, or was repeated after UNPREPARED/eviction and at least one operation completed",
 	})
 }
 
